@@ -130,9 +130,9 @@ def realise_slice(rec, rng, out, skipped):
         fe, pb, cb = bound(int(ks))
         ref, imp, hz = cell(cl)
         base = {"part": "slice", "op": op, "decl": c["decl"], "kind": kind, "model": hz, "container_none": n < 0,
-                "forms": fs + fe, "bounds": ca + "/" + cb}
+                "forms": fs + fe, "bounds": ca + "/" + cb, "rhs": cse["rhs"]}
         for fl in flavors(kind, op):
-            val = L.new_values(kind, m, fl) if op == "set" else None
+            val = L.new_values(kind, m, fl, cse["rhs"]) if op == "set" else None
             key = slice(pa, pb)
             out.append(R("c15sl", "s%s_%s_%s%s" % (op, d, fs, fe), [pa, pb], op, kind, n, fl, key, val, dict(base, variant="main"), ref))
             if "o" not in (fs, fe) and "c" in (fs, fe) and all(x is None or abs(x) <= 12 for x in (pa, pb)):
@@ -160,11 +160,11 @@ def realise_xslice(rec, rng, out, skipped):
     for ks, cl in rec["row"].items():
         e = int(ks)
         pb = xval(e)
-        ref = cl[0]
-        base = {"part": "xslice", "op": op, "decl": c["decl"], "kind": kind, "model": "none", "container_none": False,
+        ref, imp, hz = cell(cl)
+        base = {"part": "xslice", "op": op, "decl": c["decl"], "kind": kind, "model": hz, "container_none": False, "rhs": cse["rhs"],
                 "step": "none" if pc is None else ("zero" if pc == 0 else key_class(cse["st"]))}
         for fl in flavors(kind, op):
-            val = L.new_values(kind, m, fl) if op == "set" else None
+            val = L.new_values(kind, m, fl, cse["rhs"]) if op == "set" else None
             key = slice(pa, pb, pc)
             out.append(R("c15xs", "x%s_%s_o" % (op, d), [pa, pb, pc], op, kind, n, fl, key, val, dict(base, variant="main"), ref))
             if all(x is not None and L.RMIN <= x <= L.RMAX for x in (pa, pb, pc)):
@@ -214,7 +214,7 @@ def classes(printed):
 NEEDED = ["index:get:item", "index:get:!IndexError", "index:get:!TypeError", "index:set:sequence", "index:set:!IndexError",
           "index:set:!TypeError", "index:del:sequence", "index:del:empty", "index:del:!IndexError",
           "slice:get:sequence", "slice:get:empty", "slice:get:!TypeError", "slice:set:sequence", "slice:set:!TypeError",
-          "slice:del:sequence", "slice:del:empty", "slice:model-ub", "slice:model-bound_overflow",
+          "slice:del:sequence", "slice:del:empty", "slice:model-ub", "slice:model-bound_overflow", "xslice:model-rhs_type",
           "xslice:get:sequence", "xslice:get:empty", "xslice:get:!ValueError", "xslice:set:!ValueError", "xslice:set:sequence",
           "xslice:del:sequence", "xslice:set:!TypeError"]
 
@@ -239,7 +239,6 @@ def run(tier, seed):
     w = 5 if tier == "quick" else 8
     f_tlc = {p: pool.submit(core.tlc, "SeqIndex", CFG[tier][p], w, None, 1500 if tier == "quick" else 3000) for p in ("slice", "xslice", "index")}
     f_strict = pool.submit(core.tlc, "SeqIndex", "SeqIndex_strict", 2, None, 600)
-    f_noub = pool.submit(core.tlc, "SeqIndex", "SeqIndex_noub", 2, None, 600)
 
     # ---- model checking
     printed = {}
@@ -255,7 +254,7 @@ def run(tier, seed):
         distinct += r.distinct
         if len(printed[p]) < 100 or len(printed[p]) != r.distinct - 1 - _groups(printed[p]):
             core.die("SeqIndex %s: %d rows published for %d distinct states" % (p, len(printed[p]), r.distinct))
-    for nm, f, inv in (("strict", f_strict, "ImplAgrees"), ("noub", f_noub, "NoUB")):
+    for nm, f, inv in (("strict", f_strict, "ImplAgrees"),):
         r = f.result()
         cov["tlc"].append(dict(r.summary(), config="SeqIndex_" + nm, expected_violation=inv, violation=r.violation))
         states += r.generated
@@ -312,12 +311,27 @@ def run(tier, seed):
     by_mod = {}
     for i, r in enumerate(rs):
         by_mod.setdefault(r.mod + ("!hz" if r.desc["model"] == "ub" else ""), []).append(i)
+    # ... and only a stratified sample of them is executed: one per (function, class of bounds) first, then random ones
+    hz_cap = 24 if tier == "quick" else 150
+    hz_all = sorted(i for k, v in by_mod.items() if "!" in k for i in v)
+    strata = {}
+    for i in hz_all:
+        strata.setdefault((rs[i].fn, rs[i].desc.get("bounds")), []).append(i)
+    first = [rng.choice(v) for _k, v in sorted(strata.items())]
+    rng.shuffle(first)
+    chosen = set(first[:hz_cap])
+    rest = [i for i in hz_all if i not in chosen]
+    chosen.update(rng.sample(rest, max(0, min(len(rest), hz_cap - len(chosen)))))
+    skipped_hz = set(hz_all) - chosen
+    for k in [k for k in by_mod if "!" in k]:
+        by_mod[k] = [i for i in by_mod[k] if i in chosen]
     jobs = []
     for mod, idxs in sorted(by_mod.items(), key=lambda kv: -len(kv[1])):
-        for j in range(0, len(idxs), CHUNK):
-            part = idxs[j:j + CHUNK]
+        step = 75 if "!" in mod else CHUNK
+        for j in range(0, len(idxs), step):
+            part = idxs[j:j + step]
             jobs.append((mod, part, pool.submit(safe_run_calls, builds[mod.split("!")[0]], [rs[i].call() for i in part],
-                                                ("hz%d" if "!" in mod else "t%d") % (j // CHUNK))))
+                                                ("hz%d" if "!" in mod else "t%d") % (j // step))))
     got = [None] * len(rs)
     for mod, part, f in jobs:
         for i, o in zip(part, f.result()):
@@ -326,13 +340,15 @@ def run(tier, seed):
     log(t0, "calls done")
 
     nbad = 0
-    for r, e, o in zip(rs, want, got):
+    for i, (r, e, o) in enumerate(zip(rs, want, got)):
+        if i in skipped_hz:
+            continue
         if o != e:
             nbad += 1
             rep.disagree(r.desc, L.obs_class(o, e, r.op), {"module": r.mod, "call": r.call()[:2], "want": e, "got": o, "spec_outcome": r.ref,
                                                             "source": [ln for ln in mods[r.mod].split("\n\n") if ("def %s(" % r.fn) in ln][:1]})
     # binding demonstration: corrupted expectations must be rejected
-    good = [i for i in range(len(rs)) if got[i] == want[i]]
+    good = [i for i in range(len(rs)) if got[i] == want[i] and i not in skipped_hz]
     for i in rng.sample(good, min(60, len(good))):
         r = rs[i]
         if L.expected_obs(corrupt(r.ref), r.op, r.kind, r.n, r.flavor) == got[i]:
@@ -348,7 +364,8 @@ def run(tier, seed):
     smp = [rs[i] for i in rng.sample(range(len(rs)), 4)]
     cov.update({
         "states": states, "distinct_states": distinct, "transitions": states,
-        "traces_validated_against_impl": len(rs), "evaluations": len(rs), "distinct_nontrivial": len(distinct_calls),
+        "traces_validated_against_impl": len(rs) - len(skipped_hz), "evaluations": len(rs) - len(skipped_hz),
+        "model_hazard_cells": len(hz_all), "model_hazard_cells_executed": len(chosen), "distinct_nontrivial": len(distinct_calls),
         "exhaustive": True, "model_cells": sum(len(x["row"]) for p in printed.values() for x in p),
         "model_only_cells_not_replayed": skipped[0], "calls_per_part": per_part, "functions_compiled": sum(v.count("def ") for v in mods.values()),
         "disagreeing_calls": nbad,
@@ -373,7 +390,7 @@ def run(tier, seed):
 
 def _groups(recs):
     """number of level-1 states (container, operation, length) behind the published leaves"""
-    return len({(json.dumps(r["cse"]["c"], sort_keys=True), r["cse"]["op"], r["cse"]["m"], r["cse"]["n"]) for r in recs})
+    return len({(json.dumps(r["cse"]["c"], sort_keys=True), r["cse"]["op"], r["cse"]["m"], r["cse"]["rhs"], r["cse"]["n"]) for r in recs})
 
 
 def replay(path, seed):
